@@ -197,20 +197,29 @@ Section Flat.
   Definition S_lookup_list (l : list C) (ks : list key) : res (list Z) :=
     res_list (map (S_lookup l) ks).
 
-  (* slice-of-labels key on an index with a map: LocMap.map_slice_args index.py:176-191:
-     start -> pos, stop -> pos + 1 (inclusive), step passed through *)
-  Definition opt_key_pos (f : key -> res Z) (k : option key) (bump : Z) : res (option Z) :=
+  (* slice-of-labels key on an index with a map: LocMap.map_slice_args index.py:176-195:
+     start -> pos; stop -> pos + 1 (inclusive) when the step is None or positive, and when walking down
+     (fix c6f9ada) pos - 1, or None when that would be negative; step passed through *)
+  Definition opt_key_pos (f : key -> res Z) (k : option key) : res (option Z) :=
     match k with
     | None => Ok None
-    | Some k => match f k with Ok i => Ok (Some (i + bump)) | Err e => Err e end
+    | Some k => match f k with Ok i => Ok (Some i) | Err e => Err e end
+    end.
+
+  Definition stop_pos (step : option Z) (p : option Z) : option Z :=
+    match p with
+    | None => None
+    | Some i =>
+        let up := match step with None => true | Some s => 0 <? s end in
+        if up then Some (i + 1) else if i - 1 <? 0 then None else Some (i - 1)
     end.
 
   Definition loc_slice (f : key -> res Z) (start stop : option key) (step : option Z) : res slice :=
-    match opt_key_pos f start 0 with
+    match opt_key_pos f start with
     | Err e => Err e
-    | Ok a => match opt_key_pos f stop 1 with
+    | Ok a => match opt_key_pos f stop with
               | Err e => Err e
-              | Ok b => Ok (mk_slice a b step)
+              | Ok b => Ok (mk_slice a (stop_pos step b) step)
               end
     end.
 
@@ -309,16 +318,31 @@ Section Flat.
                end
       end.
 
-  (* extend  index.py:1471-1477: append one by one, the first failure propagates (values already
-     appended stay) *)
-  Fixpoint M_go_extend (g : go) (ks : list key) : go * res unit :=
+  (* extend  index.py:1487-1500.  Since fix c675c22 every value is validated first -- refused when it
+     is contained (self.__contains__) or repeated within the values (a set of the values seen) -- and
+     only then are the values appended one by one.  Whether the validation loop exists is re-read from
+     the source (gen_extend_validates_first); without it the appends run directly. *)
+  Fixpoint M_go_extend_seq (g : go) (ks : list key) : go * res unit :=
     match ks with
     | [] => (g, Ok tt)
     | k :: ks' => match M_go_append g k with
-                  | (g', Ok _) => M_go_extend g' ks'
+                  | (g', Ok _) => M_go_extend_seq g' ks'
                   | (g', Err e) => (g', Err e)
                   end
     end.
+
+  Fixpoint M_ext_validate (g : go) (seen : list C) (ks : list key) : bool :=
+    match ks with
+    | [] => true
+    | k :: ks' => if M_go_contains g k || memb (fst k) seen then false
+                  else M_ext_validate g (fst k :: seen) ks'
+    end.
+
+  Definition M_go_extend (g : go) (ks : list key) : go * res unit :=
+    if gen_extend_validates_first then
+      let g1 := fold_left M_go_touch_contains ks g in      (* __contains__ may refresh the caches *)
+      if M_ext_validate g [] ks then M_go_extend_seq g1 ks else (g1, Err gen_append_dup_error)
+    else M_go_extend_seq g ks.
 
   Inductive op := OpAppend (k : key) | OpExtend (ks : list key) | OpTouch.
 
@@ -355,17 +379,17 @@ Section Flat.
   Definition S_go_append (l : list C) (k : key) : list C * bool :=
     if memb (fst k) l then (l, false) else (l ++ [fst k], true).
 
-  (* extend: all-or-nothing is C09's business; C02 only needs that what is held stays an index, so
-     the specification processes the values one by one and stops at the first duplicate like the
-     documented loop *)
-  Fixpoint S_go_extend (l : list C) (ks : list key) : list C * bool :=
+  (* extend is all-or-nothing: accepted iff no value is held and no value is repeated; then every
+     value is appended in order, otherwise the index is unchanged *)
+  Fixpoint S_ext_validate (l seen : list C) (ks : list key) : bool :=
     match ks with
-    | [] => (l, true)
-    | k :: ks' => match S_go_append l k with
-                  | (l', true) => S_go_extend l' ks'
-                  | (l', false) => (l', false)
-                  end
+    | [] => true
+    | k :: ks' => if memb (fst k) l || memb (fst k) seen then false
+                  else S_ext_validate l (fst k :: seen) ks'
     end.
+
+  Definition S_go_extend (l : list C) (ks : list key) : list C * bool :=
+    if S_ext_validate l [] ks then (l ++ map fst ks, true) else (l, false).
 
   Definition S_go_step (l : list C) (o : op) : list C * bool :=
     match o with
@@ -382,6 +406,29 @@ Section Flat.
     end.
 
   Definition is_ok {A} (r : res A) : bool := match r with Ok _ => true | Err _ => false end.
+
+  (* the guard of the history theorem: the values of an extend must be keys on which the membership
+     test of the index is plain list membership -- on a map-less (auto-integer) index a key that EQUALS
+     a held position but is not integer-typed (1.0 on [0,1]) is not "contained" (finding
+     C02-auto-float-key), passes the validation of extend and is only refused by its own append, after
+     the values before it have been appended *)
+  Definition go_key_ok (g : go) (k : key) : bool :=
+    match g_map g with
+    | Some _ => true
+    | None => int_typed k || negb (memb (fst k) (g_mut g))
+    end.
+
+  Definition go_step_dom (g : go) (o : op) : bool :=
+    match o with
+    | OpExtend ks => forallb (go_key_ok g) ks
+    | _ => true
+    end.
+
+  Fixpoint go_dom (g : go) (ops : list op) : bool :=
+    match ops with
+    | [] => true
+    | o :: ops' => go_step_dom g o && go_dom (fst (M_go_step g o)) ops'
+    end.
 
 End Flat.
 
@@ -403,6 +450,7 @@ Arguments M_loc_to_iloc_slice {C}. Arguments S_lookup_slice {C}.
 Arguments S_select {C}. Arguments S_drop {C}. Arguments S_roll {C}. Arguments drop_at {C}.
 Arguments M_go_init {C}. Arguments M_go_auto {C}. Arguments M_go_recache {C}. Arguments M_go_len {C}.
 Arguments M_go_contains {C}. Arguments M_go_touch_contains {C}. Arguments M_go_append {C}.
-Arguments M_go_extend {C}. Arguments M_go_step {C}. Arguments M_go_run {C}. Arguments M_go_lookup {C}.
+Arguments M_go_extend {C}. Arguments M_go_extend_seq {C}. Arguments M_ext_validate {C}. Arguments S_ext_validate {C}.
+Arguments go_key_ok {C}. Arguments go_step_dom {C}. Arguments go_dom {C}. Arguments M_go_step {C}. Arguments M_go_run {C}. Arguments M_go_lookup {C}.
 Arguments M_go_observe {C}. Arguments S_go_append {C}. Arguments S_go_extend {C}.
 Arguments S_go_step {C}. Arguments S_go_run {C}. Arguments res_list {A}.
